@@ -31,6 +31,15 @@ func NewScriptCurve(id string, v int) *ScriptCurve {
 	return c
 }
 
+// Rebase must be called inside the bubble before the curve is used: it sets the time origin and
+// re-creates the FirstEval channel (channels are only durably blocking inside their own bubble).
+func (c *ScriptCurve) Rebase(t0 time.Time) {
+	c.mu.Lock()
+	c.t0 = t0
+	c.FirstEval = make(chan struct{})
+	c.mu.Unlock()
+}
+
 func (c *ScriptCurve) GetId() string { return c.Id }
 func (c *ScriptCurve) Evaluate() (int, error) {
 	c.mu.Lock()
@@ -46,7 +55,7 @@ func (c *ScriptCurve) Evaluate() (int, error) {
 	return c.val, nil
 }
 func (c *ScriptCurve) CurrentValue() int { c.mu.Lock(); defer c.mu.Unlock(); return c.val }
-func (c *ScriptCurve) Set(v int)        { c.mu.Lock(); c.val = v; c.mu.Unlock() }
+func (c *ScriptCurve) Set(v int)         { c.mu.Lock(); c.val = v; c.mu.Unlock() }
 func (c *ScriptCurve) SetErr(e error)    { c.mu.Lock(); c.err = e; c.mu.Unlock() }
 func (c *ScriptCurve) Evals() int        { c.mu.Lock(); defer c.mu.Unlock(); return c.evals }
 func (c *ScriptCurve) FirstAt() time.Duration {
